@@ -94,9 +94,10 @@ def run(ctx):
                             e = ok_edge_of_try(f, w)
                             if e is not None and e[1] is not None and f.edge_dom(e[0], e[1], bi):
                                 handed.append(w)
-                ok = bool(wr) or bool(handed) or bool(params) or not calls
+                # every call the id can come from is a blob writer (an arm that takes the id from a parameter does not excuse an arm that computes it)
+                ok = bool(handed) or (not other and (bool(wr) or bool(params) or not calls))
                 how = ('blob writer %s' % wr[0][1].rsplit('::', 1)[-1]) if wr else ('an id handed to %s, whose success edge dominates the frame' % handed[0].name) if handed else (
-                    'parameter / existing value' if (params or not calls) else 'computed by %s without writing the blob first' % sorted(c[1] for c in other)[:2])
+                    'parameter / existing value' if ((params or not calls) and not other) else 'computed by %s without writing the blob first' % sorted(c[1] for c in other)[:2])
                 ctx.ob('C05.2', f, 'artifact-id-source:%s.%s' % (rv.get('variant', ''), fname), ok, '%s.%s comes from %s' % (rv.get('variant'), fname, how), line=st.get('ln'))
     ctx.floor('C05.2', 'artifact-id fields of constructed frames', n, 4)
 
